@@ -682,35 +682,3 @@ fn c16_media_type() {
     std::mem::forget(r);
 }
 
-/// Model of `str::trim` for the bench below: strips Unicode White_Space at both ends for inputs
-/// whose whitespace is ASCII or the 2-byte NEL / NBSP.
-pub(crate) fn trim_model(s: &str) -> &str {
-    let b = s.as_bytes();
-    let mut a = 0;
-    while a < b.len() && is_ws(b[a]) {
-        a += 1;
-    }
-    let mut e = b.len();
-    while e > a && is_ws(b[e - 1]) {
-        e -= 1;
-    }
-    // SAFETY: cut at ASCII bytes only.
-    unsafe { std::str::from_utf8_unchecked(&b[a..e]) }
-}
-
-// @harness props=CXX unwind=30 cap=600 mem=4 unwindset=charsearcher:3
-#[kani::proof]
-#[kani::stub(std::str::from_utf8, crate::request::verif_kani::from_utf8_stub)]
-#[kani::stub(core::slice::memchr::memchr, crate::request::verif_kani::memchr_stub)]
-#[kani::stub(str::trim, trim_model)]
-fn bench_cl_5() {
-    let mut line = *b"Content-Length: 429496729X";
-    let x: u8 = kani::any();
-    kani::assume(x < 0x80 && x != b':');
-    line[25] = x;
-    let mut h = Headers::default();
-    let r = h.parse_header_line(&line);
-    assert!(r.is_ok() == (x >= b'0' && x <= b'5'));
-    std::mem::forget(r);
-    std::mem::forget(h);
-}
